@@ -132,6 +132,24 @@ def fn_call(case):
     if not (t2 == t) or observed(t2.attrs) != got:
         viols.append(("consolidate:rebuild", "Tag(name, attrs, *children) from consolidate_attrs differs from direct construction",
                       {"rebuilt": observed(t2.attrs), "direct": got}))
+    # the positional mappings may also be another tag's .attrs object (a TagAttrDict): same result as
+    # giving that tag's attributes as a plain dict, and never shared with the new tag
+    if dicts:
+        donors = [Tag("i", to_dict(d)) for d in dicts]
+        donor_models = [model_call([], [d], []) for d in dicts]
+        as_pairs = [[[n, (["H", txt] if ish else txt)] for n, txt, ish in dm] for dm in donor_models]
+        t3 = Tag("div", *[d.attrs for d in donors], **to_dict(kw))
+        exp3 = model_call([], as_pairs, kw)
+        if observed(t3.attrs) != exp3:
+            viols.append(("ctor:attrs-object", "passing another tag's .attrs as the positional mapping gives "
+                          "different attributes than passing the same attributes as a dict",
+                          {"observed": observed(t3.attrs), "expected": exp3}))
+        before = [observed(d.attrs) for d in donors]
+        t3.attrs["zz-new"] = "1"
+        t3.attrs.update({"class": "mut"})
+        if [observed(d.attrs) for d in donors] != before or any(t3.attrs is d.attrs for d in donors):
+            viols.append(("ctor:attrs-object-aliased", "the new tag shares its attribute map with the tag whose "
+                          ".attrs was passed in", {}))
     # rendering carries the attributes in the same order
     s = t.get_html_string()
     pos = [s.find(f' {n}="') for n, _, _ in got]
